@@ -403,9 +403,9 @@ def run_C13(res):
     # node-limit sweep: the budget expires at every point of the tree in turn (inside the move loop, a null-move subtree, quiescence,
     # between iterations) — the abort paths are where a search forgets to restore what it borrowed
     # middlegame roots (null-move pruning is switched off in endgames)
-    sweep_roots = [r for r in roots if bin(Pos(r[0]).c0 | Pos(r[0]).c1).count("1") >= 14][: (8 if res.tier == "quick" else 24)]
+    sweep_roots = [r for r in roots if bin(Pos(r[0]).c0 | Pos(r[0]).c1).count("1") >= 14][: (6 if res.tier == "quick" else 24)]
     for p, h in sweep_roots:
-        for n in list(range(1, 90)) + list(range(90, 800, 9 if res.tier == "quick" else 5)):
+        for n in list(range(1, 150)) + list(range(150, 1200 if res.tier == "quick" else 800, 2 if res.tier == "quick" else 5)):
             reqs.append(f"root {p} {hist_str(h)} 1 nodes {n}")
             det.append(True)
     res.count("node_limit_sweep_requests", sum(1 for r in reqs if " 1 nodes " in r))
